@@ -190,11 +190,12 @@ Lemma cstep_spec s e s' x d : cstep s e = (s', x, d) ->
   exec_filter (last_exec s) (step_cmds e) = (last_exec s', x)
   /\ digest s' = digest s ++ payload x /\ count s' = count s + N.of_nat (length x).
 Proof.
-  destruct e as [id w | b | b]; simpl.
+  destruct e as [id w | b | b | ]; simpl.
   - intros H; inversion H; subst. simpl. rewrite app_nil_r, N.add_0_r. auto.
   - apply exec_batch_spec.
   - destruct (abort_batch s b) as [s1 d1] eqn:E. intros H; inversion H; subst.
     apply abort_batch_fields in E as (-> & -> & ->). simpl. rewrite app_nil_r, N.add_0_r. auto.
+  - intros H; inversion H; subst. simpl. rewrite app_nil_r, N.add_0_r. auto.
 Qed.
 
 Lemma exec_batches_concat evs : concat (exec_batches evs) = flat_map step_cmds evs.
@@ -322,7 +323,7 @@ Proof.
   - destruct (cstep s e) as [[s1 x] d] eqn:E1. destruct (crun s1 r) as [s2 o2] eqn:E2.
     inversion H; subst. unfold delivered_of. cbn [flat_map snd]. fold (delivered_of o2).
     unfold dtoks. rewrite map_app. fold (dtoks d). fold (dtoks (delivered_of o2)).
-    destruct e as [id w | b | b]; cbn [cstep] in E1.
+    destruct e as [id w | b | b | ]; cbn [cstep] in E1.
     + (* register *)
       inversion E1; subst. simpl in *.
       assert (Hn1 : NoDup ((w :: toks (aw_remove (awaiting s) id)) ++ reg_tokens r)).
@@ -376,6 +377,8 @@ Proof.
         -- apply in_or_app. left. apply G2. apply in_or_app. now left.
         -- apply I2 in Hy. apply in_app_or in Hy as [Hy | Hy]; apply in_or_app; [left | now right].
            apply G2. apply in_or_app. now right.
+    + (* lifecycle *)
+      inversion E1; subst. simpl in *. exact (IH _ _ _ Hn E2).
 Qed.
 
 (* success only in the step that executed the command *)
@@ -421,11 +424,12 @@ Qed.
 Lemma cstep_success s e s' x d id w : cstep s e = (s', x, d) -> In (id, w, OSuccess) d ->
   exists b c, e = CExec b /\ In c b /\ In c x /\ cid c = id.
 Proof.
-  destruct e as [i t | b | b]; cbn [cstep].
+  destruct e as [i t | b | b | ]; cbn [cstep].
   - intros H Hi; inversion H; subst. destruct Hi.
   - intros H Hi. destruct (exec_batch_success _ _ _ _ _ _ _ H Hi) as (c & A & B & C). exists b, c. auto.
   - destruct (abort_batch s b) as [sa da] eqn:Ea. intros H Hi; inversion H; subst.
     exfalso. exact (abort_batch_no_success _ _ _ _ _ _ Ea Hi).
+  - intros H Hi; inversion H; subst. destruct Hi.
 Qed.
 
 Lemma crun_nth : forall evs s s' outs i e, crun s evs = (s', outs) -> nth_error evs i = Some e ->
